@@ -18,7 +18,7 @@ import c07_cache_keys
 
 COQ_FILES = ['C07/Model.v', 'Gen/C07CacheKeys.v', 'C07/Proofs.v', 'C07/Props.v']
 IMPL = os.path.join(os.path.dirname(os.path.abspath(__file__)), 'impl_c07.py')
-WORKDIR = os.path.join(WORK, 'c07')
+WORKDIR = os.path.join(WORK, 'c07', f'run-{os.getpid()}')     # per run: concurrent checks do not share it
 KNOWN_SIG = 'C07/stale-cached-engine-after-non-rules-load'
 PAR = 4
 
@@ -786,8 +786,9 @@ def main(tier):
         'rule': 'histories of 2-12 operations {load A|B|C|D|E|none, classify (normalize_merchant or parse_generic_csv), evaluate '
                 '(transaction or view expression), engine.parse, engine.match} over generated universes of 3-4 rule files (.rules, CSV, '
                 'one unparsable .rules; overlapping patterns, different categories, case/whitespace twins of expressions and regexes, '
-                'top-level variables, transforms, let/field, dynamic tags, supplemental rows) and 4-6 transactions; every operation is '
-                'compared with a fresh interpreter; non-trivial = distinct histories loading >= 2 different files',
+                'top-level variables, transforms, let/field, dynamic tags, supplemental rows) and 4-6 transactions, plus probes (an expression then '
+                'its case twin; one engine parsed twice then matched; every ordered pair of loads for the first universes); every operation is '
+                'compared with a fresh interpreter (one subprocess per distinct (replayed last load, operation)); non-trivial = distinct histories loading >= 2 different files',
         'samples': [{'universe_files': unis[0]['files'], 'history': all_hists[0][0]}, {'history': all_hists[-1][-1]}],
         'universes': len(unis), 'histories': sum(map(len, all_hists)), 'in_process_vs_fresh_comparisons': n_cmp,
         'fresh_interpreters_spawned': spawned, 'history_length_histogram': hist_len, 'loads_per_history_histogram': nloads,
